@@ -21,7 +21,7 @@ func init() {
 		{"(*disc.Member).HandleMessage", "panic", "\"programming error: msgType", "unreachable: decodeTagAndMembershipList accepts exactly the three types the switch handles; on a decoding error the tag is empty, which is never a key of the tag table (keys are 32-byte HMACs), so the function returned before the switch — all four premises are decided on every run by C10.R2"},
 		{"disc.encodeTagAndMembershipList", "panic", "", "locally produced arguments: the tag is an HMAC-SHA256 output (32 bytes) and the type is one of the three constants"},
 		{"disc.encodeTagAndMembershipList", "bounds", "make(slice)[", "buffer allocated with 33+2·len(peers) bytes in the same function and filled from offset 33 with stride 2, one step per peer"},
-		{"(*disc.Member).handleResponse", "block", "", "the channel has len(Membership)−1 slots and at most one send per authenticated member happens (LoadOrStore guard C07.G3, tag ownership C07.G1)"},
+		{"(*disc.Member).handleResponse", "block", "", "the channel has len(Membership)−1 slots (decided on every run by C10.R2) and at most one send per authenticated member happens (LoadOrStore guard C07.G3, tag ownership C07.G1)"},
 		// --- msg
 		{"msg.", "divide", "(‹*msg.Box›.GCExpire / ‹*msg.Box›.GCSweep)", "GCSweep is local configuration; a zero value is a configuration error surfaced by startClock at first use, not network input"},
 		{"(*msg.Box).startClock", "panic", "\"GC GCExpire", "configuration check at first use (caller contract), independent of received data"},
@@ -29,6 +29,7 @@ func init() {
 		{"(*rbc.Receiver).Receive", "panic", "\"received ack from myself", "the transport-authenticated source is never this node's own id (C16: a node does not connect to itself; attribution only to registered peers)"},
 		{"(*rbc.Receiver).Receive", "bounds", "‹rbc.Message›.Ack()#0[:8]", sha},
 		{"(*rbc.Receiver).Receive", "bounds", "&‹rbc.msgReception›.digest[:8]", sha},
+		{"(*rbc.Receiver).Receive", "bounds", "‹rbc.Message›.Digest()[:8]", sha},
 		{"(*rbc.Receiver).registerMsg", "bounds", "&‹rbc.msgReception›.digest[:8]", sha},
 		// --- threshold
 		{"(*threshold.Scheme).prepareSigning$2", "assert", "‹interface{}›.(*threshold.rbcMsg)", "only *rbcMsg values are handed to the RBC instance (both construction sites build &rbcMsg, C02.V1) and the instance hands back what it was given, never nil (C03.G2)"},
@@ -45,6 +46,7 @@ func init() {
 		{"(*mpc/bls.TBLS).shareDistribution", "bounds", "localGen(", shares},
 		{"(*mpc/bls.Verifier).AggregateSignatures", "panic", "", misuse},
 		{"mpc/bls.localAggregatePublicKeys", "bounds", "φ‹[]*math.G2›[", points},
+		{"mpc/bls.localAggregatePublicKeys", "bounds", "‹[]*math.G2›[", points}, // the same site when the key list is not a loop-carried value
 		{"mpc/bls.localAggregateSignatures", "bounds", "make(slice)[", "len(signatures) == len(signers) is enforced by the caller's guard and one signature is consumed per evaluation point"},
 		// --- ps
 		{"(*mpc/ps.SSS).Gen", "bounds", "make(slice)[", local},
